@@ -461,10 +461,22 @@ def _cell(v, x0, size):
     return int(math.floor((v - x0) / size))
 
 
+def _all_coincident(pas):
+    """every particle of every array at one point: _compute_bounds then pads
+    all three axes by 0.5"""
+    pts = set()
+    for pa in pas:
+        for j in range(pa.get_number_of_particles()):
+            pts.add((float(pa.x[j]), float(pa.y[j]), float(pa.z[j])))
+    return len(pts) == 1
+
+
 def classify(scn, cname, cfg, nps, pas, d, s, i, missing, extra):
     """name the class of failing input (what known_findings.json matches on)"""
+    if extra is True:
+        return 'returns-duplicate'
     if extra:
-        return 'returns-non-neighbour-or-duplicate'
+        return 'returns-non-neighbour'
     multi = (d != s)
     try:
         hs = [float(v) for pa in pas for v in pa.h]
@@ -498,6 +510,17 @@ def classify(scn, cname, cfg, nps, pas, d, s, i, missing, extra):
                 return 'dst-cell-unoccupied-by-src'
             if multi:
                 return 'multi-array-src-cell-hmax-below-dst-h'
+        if cname == 'StratifiedSFCNNPS' and varh:
+            return 'variable-h'
+        if 'Octree' in cname:
+            leaf = cfg['knobs'].get('leaf_max_particles', 10)
+            for pa in pas:
+                pts = [(float(pa.x[j]), float(pa.y[j]), float(pa.z[j]))
+                       for j in range(pa.get_number_of_particles())]
+                if pts and max(pts.count(p) for p in set(pts)) >= leaf:
+                    return 'coincident-points-fill-a-leaf'
+        if cname == 'LinkedListNNPS' and scn['dim'] < 3 and _all_coincident(pas):
+            return 'dim-lt-3-all-particles-coincident'
     except Exception as e:      # noqa
         return 'unclassified-%s' % type(e).__name__
     return 'misses-neighbour' + ('-multi-array' if multi else '-single-array')
@@ -599,6 +622,9 @@ def run_class(scn, cname, cfg, want_states=None):
                             key = classify(scn, cname, cfg, nps, pas, d, s, i,
                                            missing, extra)
                             nf += 1
+                            ks = res.setdefault('fail_keys', {}).setdefault(str(step), [])
+                            if key not in ks:
+                                ks.append(key)
                             if len([f for f in res['fails'] if f['key'] == key]) < 2:
                                 res['fails'].append({
                                     'step': step, 'mode': 'cache' if m else 'nocache',
@@ -610,6 +636,49 @@ def run_class(scn, cname, cfg, want_states=None):
         mode = modes[-1]
         res['steps'].append(shas)
     return res
+
+
+def probe_first_cached_query(scn, cname):
+    """`get_nearest_particles(0, 0, i, nbrs)` as the very first query of an
+    NNPS built with cache=True, without a prior set_context (in a child
+    process: it may die).  -> None when fine, else a description"""
+    rd, wr = os.pipe()
+    pid = os.fork()
+    if pid == 0:
+        code = 0
+        try:
+            os.close(rd)
+            signal.alarm(CHILD_TIMEOUT)
+            set_number_of_threads(1)
+            pas = build_arrays(scn)
+            cfg = dict(scn['cfgs'][cname], cache0=True)
+            nps = construct(scn, cname, cfg, pas)
+            nb = UIntArray()
+            nps.get_nearest_particles(0, 0, 0, nb)
+            got = sorted(nb.get_npy_array().tolist())
+            with os.fdopen(wr, 'w') as fh:
+                fh.write(json.dumps(got))
+        except BaseException:      # noqa
+            code = 3
+        finally:
+            os._exit(code)
+    os.close(wr)
+    with os.fdopen(rd) as fh:
+        data = fh.read()
+    _, status = os.waitpid(pid, 0)
+    if os.WIFSIGNALED(status):
+        return 'process died with signal %d' % os.WTERMSIG(status)
+    if os.WEXITSTATUS(status) != 0:
+        return 'exit status %d' % os.WEXITSTATUS(status)
+    st = read_state_static(scn)
+    want = oracle_lists(scn, st)[(0, 0)][0][0]
+    if json.loads(data) != want:
+        return 'returned %s, neighbours are %s' % (data, want)
+    return None
+
+
+def read_state_static(scn):
+    return [{ax: list(a[ax]) for ax in ('x', 'y', 'z', 'h')} for a in scn['arrays']]
 
 
 def _run_isolated(scn, cname):
@@ -649,7 +718,7 @@ def _run_isolated(scn, cname):
             pass
     if os.WIFSIGNALED(status):
         return {'cname': cname, 'crash': 'signal %d' % os.WTERMSIG(status),
-                'crash_state': last_state}
+                'crash_state': last_state, 'cfg': scn['cfgs'][cname]}
     if r is None:
         return {'cname': cname, 'crash': 'exit status %d, no result' % status,
                 'crash_state': last_state}
@@ -798,12 +867,17 @@ def crash_condition(scn, cname, st):
     st = st if st is not None else scn['arrays']
     if any(len(a['h']) == 0 for a in st):
         return '-with-empty-array'
+    if cname == 'LinkedListNNPS' and scn['dim'] < 3 and \
+            len({(x, y, z) for a in st for x, y, z in zip(a['x'], a['y'], a['z'])}) == 1:
+        return '-dim-lt-3-all-particles-coincident'
     if 'Octree' in cname:
         leaf = scn['cfgs'][cname]['knobs'].get('leaf_max_particles', 10)
         for a in st:
             pts = list(zip(a['x'], a['y'], a['z']))
             if pts and max(pts.count(p) for p in set(pts)) >= leaf:
                 return '-coincident-points-fill-a-leaf'
+    if cname == 'StratifiedSFCNNPS' and len({h for a in st for h in a['h']}) > 1:
+        return '-variable-h'
     return ''
 
 
@@ -907,8 +981,8 @@ def evaluate(scns, R, work, tag, nproc=16):
                 for mi, sh in enumerate(shas):
                     R.d['traces_validated_against_impl'] += 1
                     if sh != msha:
-                        fk = {'C01:%s:%s' % (c, f['key']) for f in r['fails']
-                              if f['step'] == k}
+                        fk = {'C01:%s:%s' % (c, kk)
+                              for kk in r.get('fail_keys', {}).get(str(k), [])}
                         if fk and fk <= known:
                             R.count('known-finding-disagreement')
                         else:
@@ -971,6 +1045,10 @@ def corpus():
 def replay(case, R):
     scn = case['scenario']
     cname = case['cls']
+    if case.get('probe') == 'first-cached-query':
+        why = probe_first_cached_query(scn, cname)
+        print('first cached query without set_context:', why or 'fine')
+        return 1 if why else 0
     cfg = case.get('cfg') or scn['cfgs'][cname]
     scn = dict(scn)
     scn['cfgs'] = dict(scn.get('cfgs', {}))
@@ -1002,6 +1080,21 @@ def main():
     if a.replay:
         rp = json.load(open(a.replay))
         sys.exit(replay(rp['case'], R))
+    # the very first cached query, without set_context (one per class)
+    probe = corpus()[2]
+    for c in CLASSES:
+        if c == 'DictBoxSortNNPS':
+            continue
+        why = probe_first_cached_query(probe, c)
+        R.count('probe-first-cached-query')
+        if why:
+            R.count('fail:C01:NNPS:cached-query-before-set_context')
+            if len([f for f in R.d['property_failures']
+                    if f['key'] == 'C01:NNPS:cached-query-before-set_context']) < 2:
+                R.prop_fail('C01:NNPS:cached-query-before-set_context',
+                            {'probe': 'first-cached-query', 'scenario': probe, 'cls': c},
+                            'get_nearest_particles(0, 0, 0, nbrs) on a freshly built %s('
+                            'cache=True) returns the neighbours of particle 0' % c, why)
     rng = random.Random(a.seed * 1000003 + 101)
     nscn = 130 if a.tier == 'quick' else 1500
     nscn = int(os.environ.get('C01_NSCN', nscn))
